@@ -93,6 +93,10 @@ CLAIMED["C04"] = dict(
          "right channels, format, rate and frames; aiff_size_fields; aiff_rate_roundtrip for every r in [1, 2^31-1] and aiff_frames_exact F = N for every encoding, both full strength since the repairs of KF-AIFF-RATE-2P30 and KF-AIFF-ODD-PAD, the old rules kept as *_old_rule theorems), CAF and W64 "
          "(SfModel/Caf.lean, W64.lean; size fields and padding rules for every N, closed bytes independent of the stale frames value and of header updates, the W64 open-time 'fact' leak as a "
          "proved witness; the universal parse(image) theorem is not yet proved for CAF/W64: kernel-evaluated instances only). " + _WR +
+         "right channels, format, rate and frames; aiff_size_fields; aiff_rate_roundtrip for r < 2^30 with the proved 2^30 counter-example; aiff_frames_bound N <= F <= N+1), CAF and W64 "
+         "(SfModel/Caf.lean, W64.lean; size fields and padding rules for every N, closed bytes independent of the stale frames value and of header updates, caf_reopen_info / w64_reopen_info proved over the "
+         "parsers for every accepted configuration, N and data (CAF guard: audio <= 2^31-1 bytes); the W64 open-time 'fact' leak is repaired and kept as an _old_rule witness), "
+         "WAVEX and RF64 write-side models (SfModel/Wavex.lean, Rf64.lean: both RF64 header forms, auto-downgrade; session theorems for WAVEX; their readers are not modelled). " + _WR +
          "The stand-alone models are tied by their own campaigns: every accepted sample-granular encoding x channels x rates (incl. 1, 65536, 2^30, 2^31-1) x lengths, ALL header and tail bytes "
          "of the store after open, after a header update and after close, and the parsers on library files plus thousands of truncated/damaged variants. The geometry (block length, pad allowance, "
          "rate quantiser per container) is written from the format definitions, not measured. Partial: header bytes of the other 17 containers are not modelled (covered by B).",
